@@ -47,7 +47,10 @@ def run(ck):
   for k in range(cfg['finding_each'] + 1): corpus += G.gen_history(random.Random(rng.getrandbits(64)), BE)
   U.run_batch(ck, BE, corpus, stats, cfg['ncycles'] + 2, cfg['nstores'])
   fd = [dict(w) for w in K.WITNESSES if BE in w['backends']]      # canonical witnesses first, then randomised instances
-  for fid, (bes, _) in G.FINDING_STREAMS.items():
+  # (pending streams run once their finding is registered for this property in known_findings.json)
+  streams_ = dict(G.FINDING_STREAMS)
+  streams_.update({f: v for f, v in G.PENDING_STREAMS.items() if G.registered(f, PID)})
+  for fid, (bes, _) in streams_.items():
     if BE not in bes: continue
     n = cfg['finding_each'] * (6 if fid == G.F10 else 1)
     for k in range(n):
